@@ -61,6 +61,7 @@ type Record struct {
 	Reg       bool   `json:"registered_method"`
 	Variant   string `json:"variant"`
 	Combo     string `json:"combo"`
+	PathVar   string `json:"path_variant"`
 	Status    int    `json:"status"`
 	Body      string `json:"body"`
 	WWWAuth   string `json:"www_auth"`
@@ -78,6 +79,8 @@ type Record struct {
 	Msg           string           `json:"msg"`
 	Routes        []Route          `json:"routes"`
 	MuxPatterns   []string         `json:"default_mux_patterns"`
+	NotFound      string           `json:"not_found_handler"`
+	MethodNA      string           `json:"method_not_allowed_handler"`
 	ListenPorts   []int            `json:"listening_ports"`
 	HTTPPort      int              `json:"http_port"`
 	DBPort        int              `json:"db_port"`
@@ -293,6 +296,7 @@ func main() {
 	// ---- judge
 	walked := map[string]bool{}    // "METHOD template" over all modes
 	walkedTpl := map[string]bool{} // template
+	fallbacks := map[string]string{}
 	modeRoutes := map[string]int{} // mode -> walked routes
 	muxPatterns := map[string]bool{}
 	abandoned := map[string]bool{}
@@ -307,6 +311,7 @@ func main() {
 			r.Cap(fmt.Sprintf("probe %s: more than 400 requests that must be rejected were let through; the remaining %d of that phase were not sent", pr.Cfg.Name, pr.End.Skipped))
 		}
 		modeRoutes[pr.Cfg.Mode] = len(pr.Header.Routes)
+		fallbacks[pr.Cfg.Mode] = "NotFoundHandler=" + pr.Header.NotFound + " MethodNotAllowedHandler=" + pr.Header.MethodNA
 		for _, p := range pr.Header.ListenPorts {
 			if p != pr.Header.HTTPPort && p != pr.Header.DBPort {
 				otherPorts++
@@ -355,6 +360,7 @@ func main() {
 		sort.Strings(mp)
 		r.Extra["http_DefaultServeMux_patterns"] = mp
 		r.Extra["walked_routes_per_mode"] = modeRoutes
+		r.Extra["router_fallback_handlers"] = fallbacks
 		var ab []string
 		for k := range abandoned {
 			ab = append(ab, k)
@@ -478,6 +484,9 @@ func partialDecodeRight(h, login, pass string) bool {
 func viaOf(rec *Record) string {
 	if rec.Phase == "after" {
 		return "after" // replay: prime with the right credentials first
+	}
+	if rec.Phase == "pathvar" {
+		return "pathvar"
 	}
 	return rec.Via
 }
@@ -638,6 +647,23 @@ func judge(r *ev.Run, pr *ProbeResult, walked, walkedTpl, abandoned map[string]b
 					r.Outcome("db_connection_not_reproduced_on_rerun")
 				}
 			}
+		}
+		if rec.Phase == "pathvar" {
+			// a variant of a registered path (or an unknown path): nothing may run without the credentials
+			r.Outcome(fmt.Sprintf("path_variant(%s)/%s->%d", rec.PathVar, v.Class, rec.Status))
+			if entered || dbTouched {
+				violate(r, "path_variant_reaches_handler_without_credentials:"+rec.PathVar,
+					where+fmt.Sprintf(": the %s variant of route %s entered a handler (entries %d, look-ups %d, status %d) — answered by: NotFoundHandler=%s MethodNotAllowedHandler=%s",
+						rec.PathVar, tpl, rec.DHandler, rec.DReg, rec.Status, pr.Header.NotFound, pr.Header.MethodNA), mk(rec, v))
+				continue
+			}
+			switch rec.Status {
+			case 400, 401, 404, 405, 301:
+			default:
+				violate(r, fmt.Sprintf("path_variant_status_%d:%s", rec.Status, rec.PathVar),
+					where+fmt.Sprintf(": status %d for the %s variant of route %s without the credentials", rec.Status, rec.PathVar, tpl), mk(rec, v))
+			}
+			continue
 		}
 		if !rec.Reg {
 			// method not registered for this path: nothing may run, whatever the status
